@@ -774,6 +774,7 @@ func runC19(c *core.Ctx) {
 		}
 		os.RemoveAll(dir)
 	}
+	c19IOFaults(c)
 }
 
 func c19AnyUnprocessable(entries []c19Entry) bool {
